@@ -256,6 +256,16 @@ func genC01(r *simrt.Rand, tier string, idx uint64) *Plan {
 					op.CtxBuf = -1
 				}
 				cp.Ops = append(cp.Ops, op)
+			case 4:
+				// a call abandoned by its context (deadline well before the handler answers), then a call
+				// that is still outstanding when the late response arrives
+				ab := genCallOp(r, &big)
+				d := 300 + r.Intn(1500)
+				ab.Kind, ab.Flags, ab.Arg, ab.Timeout, ab.Bad, ab.CtxBuf = "ctx", FlSlow, uint32(d), d/3, "", -1
+				next := genCallOp(r, &big)
+				next.Kind, next.Bad, next.NilDone = "go", "", false
+				next.Flags, next.Arg = FlSlow, uint32(2*d+r.Intn(1000))
+				cp.Ops = append(cp.Ops, ab, next)
 			default:
 				cp.Ops = append(cp.Ops, genCallOp(r, &big))
 			}
